@@ -53,7 +53,9 @@ def main(args):
         to_delete: List[pathlib.Path] = []
 
         for inner in curr_path.iterdir():
-            if not inner.is_dir():
+            if not inner.is_dir() or inner.is_symlink():
+                # N.B. Symlinks are never followed: they may lead outside of
+                # Conductor's output directory.
                 continue
             exp_match = _EXPERIMENT_TASK_REGEX.match(inner.name)
             if exp_match is None:
